@@ -18,6 +18,7 @@ package discovery
 import (
 	"bytes"
 	"context"
+	"errors"
 	"fmt"
 	"io"
 	"sort"
@@ -29,6 +30,7 @@ import (
 	"github.com/aws/aws-sdk-go-v2/aws"
 	awsconfig "github.com/aws/aws-sdk-go-v2/config"
 	"github.com/aws/aws-sdk-go-v2/service/s3"
+	"github.com/aws/aws-sdk-go-v2/service/s3/types"
 	"github.com/kafscale/platform/addons/processors/sql-processor/internal/config"
 	"github.com/kafscale/platform/addons/processors/sql-processor/internal/metrics"
 )
@@ -156,7 +158,14 @@ func (l *s3Lister) ListCompleted(ctx context.Context) ([]SegmentRef, error) {
 			continue
 		}
 		ok, err := l.hasFooterMagic(ctx, entry.kfsKey)
-		if err != nil || !ok {
+		if err != nil {
+			var gone *types.NoSuchKey
+			if errors.As(err, &gone) {
+				continue
+			}
+			return nil, fmt.Errorf("probe segment footer %s: %w", entry.kfsKey, err)
+		}
+		if !ok {
 			continue
 		}
 		segment := SegmentRef{
